@@ -6,6 +6,7 @@ CONSTANTS
   NegAttempts = 3
   MaxLoss = 4
   MaxNegLoss = 1
+  MaxRestarts = 0
   PeerModes <- ModesSL
   DenyReplies <- DenyOne
   AckTails <- TailsRssi
